@@ -231,6 +231,23 @@ def check_table(res, spec, obs, tol=1e-9):
 
 def check_case(case):
     res = Res()
+    if case.get("fam") == "c05edit":
+        # the edit histories of C05 (the series element in front of one mux input deleted with del_childs=False, an input renamed, a rail handed over):
+        # afterwards every row is attributed to the source that powers it under the DECLARED input order (Domain column, Subsystem rows exist for it)
+        from . import c05
+        old = c05.WANT
+        c05.WANT = ("C07",)
+        try:
+            r5 = c05.check_case(case["case"])
+        finally:
+            c05.WANT = old
+        for sig, det in r5.viol:
+            if len(sig) > 1 and str(sig[1]).startswith("C07."):
+                res.v(("C07.after-edit",) + tuple(sig[1:]), det)
+        res.stats.update(r5.stats)
+        res.stats["orders"] += 1
+        res.nontrivial = r5.nontrivial
+        return res
     struct = {k: (v[0], tuple(v[1])) for k, v in case["struct"].items()}
     orders = linear_extensions(struct)
     ref = None
@@ -363,6 +380,12 @@ def gen_cases(tier):
                 yield dict(struct={k: [v[0], list(v[1])] for k, v in st.items()}, pal=pal, volts=list(volts), phased=False, energy=False, pol=-1)
 
 
+    from . import c05
+    for c5 in c05.gen_edits(tier, pal):
+        if c5.get("handover") or c5.get("rename") or (c5.get("delete") and not c5.get("remux") and not c5.get("reload")):
+            yield dict(fam="c05edit", case=c5, pal=pal)
+
+
 def replay(doc):
     r = check_case(doc["case"])
     for sig, detail in r.viol:
@@ -378,6 +401,7 @@ def main(tier):
         rule="E1-order: two-source structures with a 2-input PMux (chains of 0..2 / 0..1 series elements, optional side load, every ordered pair of "
              "distinct attachment points as mux inputs), two- and three-source forests without mux, one single-source system; x live/0 V source patterns x "
              "(no phases | 2 phases with an inactive source and per-phase loads) x energy flag; EVERY linear extension (construction order) is built; small structures additionally with negative rails and with the phase durations edited between two analyses. "
+             "Plus the C05 edit histories (series element in front of a mux input deleted with del_childs=False, input renamed, rail handed over) judged by the Domain oracle. "
              "states = structures x patterns, traces = tables checked (one per construction order). non-trivial = >=2 orders and >=2 subsystems with non-zero loss.",
         states=run.cases, traces=run.stats["orders"],
         assumptions=["small alphabet (RLoss, Converter, ILoad, PLoad-as-loss, PMux)", "<=6 non-source nodes", "one palette per run"])
